@@ -254,8 +254,15 @@ let exec (s : t) (verbose : bool) (f : string array) (obs : string option) : str
     let o = match obs with Some o -> obs_head o | None -> "ok order" in
     let order_s = match split_first o "order" with (_, r) -> String.trim r in
     let order = if order_s = "" then [] else List.map n_of_string (String.split_on_char ',' order_s) in
+    (* hypothesis of the merge theorems (order_ok): the scan order covers every data file *)
+    let d0 = get_db s in
+    let ids = d0.d_active_id :: List.map fst d0.d_older in
+    let missing = List.filter (fun id -> not (List.mem id order)) ids in
     let (((d, k), e), evs) = db_merge (get_db s) s.disk order in
     s.db <- Some d; s.disk <- k;
+    if missing <> [] && e = None then
+      "err scan-order-does-not-cover-file-" ^ string_of_n (List.hd missing) ^ " (hypothesis order_ok of the merge theorems)"
+    else
     (match e with None -> "ok" | Some e -> "err " ^ eerr_name e) ^ " order " ^ order_s ^ events_str evs
   | "backup" ->
     let ((d, k), evs) = db_backup (get_db s) s.disk in
